@@ -100,5 +100,11 @@ CLAIMED["C06"] = dict(
     note="Trusted: pickletools.genops as a tokeniser that only advances the stream; the idiom tables in sa/props/c06.py.",
 )
 
+CLAIMED["C08"] = dict(
+    technique="abstract interpretation of the injection helpers over an abstract opcode list [PROTO, FRAME, BODY, STOP] followed by a symbolic run of the produced opcode template on a VM with pickletools' stack effects, exhaustive over the helpers' flag space and several argument shapes",
+    level="Template discipline (necessary, not sufficient): for every helper and flag combination the spliced opcodes perform exactly one REDUCE of the injected callable with exactly the given arguments, leave [obj] (keep modes) or [result] (replace modes) at the single trailing STOP, read only memo keys the template itself wrote (the MEMOIZE key being derived from a symbolic run of the base made before MEMOIZE is inserted), and the prefix block lands right after the PROTO/FRAME header. Not decided: that every effect of every base pickle still happens in order (memo-key collisions with sparse base keys, stale FRAME lengths, base pickles leaving garbage on the stack), and the safety verdict of the rewritten pickle beyond C04's table. One genuine finding recorded (append_python(pop_result=False)).",
+    note="Trusted: sa/minieval.py interpreting the helpers' own source; pickletools stack effects of the dozen template opcodes; BODY as a stand-in for any base body that nets [] -> [obj].",
+)
+
 _NOT_YET = "checker not built yet in this session (planned per DESIGN.md section 3); nothing is claimed until it exists"
 NOT_APPLICABLE = {p: _NOT_YET for p in [f"C{i:02d}" for i in range(1, 20)]}
